@@ -7,6 +7,8 @@ import (
 	"encoding/hex"
 	"encoding/json"
 	"fmt"
+	"io"
+	"log/slog"
 	"os"
 	"path/filepath"
 	"regexp"
@@ -16,6 +18,11 @@ import (
 	"sync"
 	"time"
 )
+
+func init() {
+	// the library logs handler panics with full stack traces through slog.Default()
+	slog.SetDefault(slog.New(slog.NewTextHandler(io.Discard, &slog.HandlerOptions{Level: slog.Level(100)})))
+}
 
 func Root() string {
 	if r := os.Getenv("VERIF_ROOT"); r != "" {
@@ -89,6 +96,13 @@ func (c *Check) Eval(key []byte, nontrivial bool) {
 		copy(k[:], h[:16])
 		c.distinct[k] = struct{}{}
 	}
+	c.mu.Unlock()
+}
+
+// Mu runs f under the check's lock (for counters updated from parallel workers).
+func (c *Check) Mu(f func()) {
+	c.mu.Lock()
+	f()
 	c.mu.Unlock()
 }
 
